@@ -59,15 +59,17 @@ TABLE = {
                               "parse_doctype_tokens", "parse_misc_tokens", "parse_element_tokens"], "Local Notation token := Tokenizer.token.", "forall (text : bytes),"),
            ("RejectProofs.v", ["ok_document_shape", "ok_no_text_before_root"], "Local Notation token := Tokenizer.token.")]),
  "C04": dict(
-   intro="C04 -- character data is decoded per XML 1.0, one text node per run.\n   (1) the text machine (TextBuffer with the pending-CR flag, as driven by process_text) produces,\n   for every run of literal bytes and referenced characters, the decoding of Spec/Text.v; a referenced\n   character never encodes to zero bytes (encode_utf8_nonempty); the same on the model's own loop;\n   (2) CDATA sections are normalised like literals; (3) any number of fragments of one run end up in\n   exactly one Text node holding their concatenation (after_text protocol).",
-   imports=["From RX.Spec Require Import Text.", "From RX.Proofs Require Import TextMachine TextMerge."],
-   groups=[("TextMachine.v", ["text_chunks_decode_partial", "encode_utf8_nonempty", "text_chunks_in_entity", "cdata_decode", "run_text_empty_iff"]),
+   intro="C04 -- character data is decoded per XML 1.0, one text node per run.\n   (1) the text machine (TextBuffer with the pending-CR flag, as driven by process_text) produces,\n   for every run of literal bytes and referenced characters, the decoding of Spec/Text.v; a referenced\n   character never encodes to zero bytes (encode_utf8_nonempty); the same on the model's own loop;\n   (2) CDATA sections are normalised like literals; (3) any number of fragments of one run end up in\n   exactly one Text node holding their concatenation (after_text protocol); (4) whole documents, fragment of\n   Spec/CstText.v (text runs made of literals incl. CR / CR LF, character references, predefined references and\n   CDATA sections; ASCII source, no DOCTYPE / namespaces): every rendering parses to exactly its meaning, where a\n   run denotes ONE Text node holding decode_chunks of its pieces (Spec/Text.v) -- parse_render_sem_text -- so\n   documents that differ only in how a string is spelled (&amp; / &#38; / CDATA) give the same tree.",
+   imports=["From RX.Spec Require Import Text.", "From RX.Spec Require Cst CstText.", "From RX.Proofs Require Import TextMachine TextMerge CstMain CstTextMain."],
+   groups=[("CstTextMain.v", ["parse_render_sem_text", "piece_choice_insensitive"], "Module T := CstText."),
+           ("TextMachine.v", ["text_chunks_decode_partial", "encode_utf8_nonempty", "text_chunks_in_entity", "cdata_decode", "run_text_empty_iff"]),
            ("TextMerge.v", ["fragments_merge", "fragments_merge_ranges", "append_text_continuation", "single_fragment_storage",
                             "reset_after_text_safe", "process_cdata_spec"])]),
  "C05": dict(
-   intro="C05 -- attributes: exact set, source order, values normalised per XML 1.0 3.3.3.\n   (1) the attribute machine (push_from_attr / push_raw as driven by _normalize_attribute) against\n   Spec/Text.v, at top level and inside entity values, and on the model's normalize_attribute;\n   (2) a namespace declaration is never stored as an attribute, attributes are stored in source order,\n   nothing dropped or duplicated, expanded names pairwise distinct, namespace indices as resolved.",
-   imports=["From RX.Spec Require Import Text.", "From RX.Proofs Require Import TextMachine AttrListProofs."],
-   groups=[("TextMachine.v", ["attr_chunks_normalise", "attr_chunks_total_top", "attr_chunks_in_entity"]),
+   intro="C05 -- attributes: exact set, source order, values normalised per XML 1.0 3.3.3.\n   (1) the attribute machine (push_from_attr / push_raw as driven by _normalize_attribute) against\n   Spec/Text.v, at top level and inside entity values, and on the model's normalize_attribute;\n   (2) a namespace declaration is never stored as an attribute, attributes are stored in source order,\n   nothing dropped or duplicated, expanded names pairwise distinct, namespace indices as resolved;\n   (3) whole documents, fragment of Spec/CstText.v (attribute values made of literals incl. TAB / LF / CR / CR LF,\n   character and predefined references): every rendering parses to the element's attributes in source order with\n   values norm_attr_chunks of their pieces (parse_render_sem_text; view / sem list the attributes of every element).",
+   imports=["From RX.Spec Require Import Text.", "From RX.Spec Require Cst CstText.", "From RX.Proofs Require Import TextMachine AttrListProofs CstMain CstTextMain."],
+   groups=[("CstTextMain.v", ["parse_render_sem_text", "layout_insensitive_text"], "Module T := CstText."),
+           ("TextMachine.v", ["attr_chunks_normalise", "attr_chunks_total_top", "attr_chunks_in_entity"]),
            ("AttrListProofs.v", ["process_attribute_classifies", "resolve_attributes_in_order", "resolve_attributes_unique",
                                  "resolve_attributes_unique_eqb", "resolve_attributes_namespace"])]),
  "C06": dict(
